@@ -217,7 +217,7 @@ def stringify_cell_record(cell, database_text_encoding, page_type):
                 else False
             )
             value = record_column.value
-            if record_column.value:
+            if value is not None:
                 if text_affinity:
                     column_values.append(
                         value.decode(database_text_encoding, "replace").encode(UTF_8)
@@ -241,7 +241,7 @@ def stringify_cell_record(cell, database_text_encoding, page_type):
                 else False
             )
             value = record_column.value
-            if record_column.value:
+            if value is not None:
                 if text_affinity:
                     column_values.append(
                         value.decode(database_text_encoding, "replace").encode(UTF_8)
